@@ -78,6 +78,59 @@ def children_spans(e, p):
     return out
 
 
+def mf_lambda_nodes(main):
+    out = set()
+
+    def rec(n, inside):
+        if isinstance(n, dict):
+            if inside and "k" in n:
+                out.add(id(n))
+            if n.get("k") == "mcall" and n.get("m") in ("map", "filter") and n["args"] and n["args"][0].get("k") == "lambda":
+                rec(n["recv"], inside)
+                for v in n["args"][0].values():
+                    rec(v, True)
+                return
+            for v in n.values():
+                rec(v, inside)
+        elif isinstance(n, list):
+            for v in n:
+                rec(v, inside)
+    rec(main, False)
+    return out
+
+
+def discarded_ids(pr):
+    out = set()
+    G.walk(pr, lambda n: out.add(id(n["e"])) if n.get("discarded") else None)
+    return out
+
+
+def cli_probe(src, off, sc):
+    """`garden reftest-eval-up-to` with a caret comment inserted under the probe. -> ("ok", value) | ("err", text) | None"""
+    ls = src.rfind("\n", 0, off) + 1
+    le = src.find("\n", off)
+    if le < 0:
+        return None
+    col = off - ls
+    if col < 2:
+        return None
+    text = src[:le + 1] + "//" + " " * (col - 2) + "^\n" + src[le + 1:]
+    r = core.run_garden(["reftest-eval-up-to", sc.file(text)], timeout=60, cwd=sc.dir)
+    if r.cls in core.CRASH:
+        return ("crash", core.crash_sig(r))
+    if r.cls == "timeout":
+        return None
+    lines = [l for l in r.out.split("\n") if l.strip()]
+    if not lines:
+        return ("err", r.err[-300:])
+    last = lines[-1]
+    # "<path>:<line>: <value>"
+    parts = last.split(": ", 1)
+    if len(parts) != 2:
+        return ("err", last)
+    return ("ok", parts[1])
+
+
 def run_batch(cases):
     out = []
     with core.Scratch("gm-c27-") as sc:
@@ -176,6 +229,22 @@ def run_case(case, sc):
     if first[0] != "ok":
         return {"status": "inconclusive", "key": None, "detail": dict(detail, first=first[:2])}
     keys = set()
+    in_mf = mf_lambda_nodes(pr["main"])
+    # probes inside map/filter lambdas are also put through the command line (`reftest-eval-up-to`, caret comment)
+    cli = [q for q in probes if id(q[0]) in in_mf]
+    for (e, st, en, off) in cli[:5]:
+        v = cli_probe(src, off, sc)
+        want = interp.show(ref["trace"][id(e)])
+        d = dict(detail, probe={"kind": e["k"], "span": [st, en], "offset": off, "text": src[st:en][:200], "via": "reftest-eval-up-to"},
+                 expected=want, observed=v)
+        if v is None:
+            continue
+        if v[0] == "crash":
+            return {"status": "violated", "key": None, "sig": "crash:cli:" + v[1], "detail": d}
+        if v[0] != "ok" or v[1] != want:
+            return {"status": "violated", "key": None, "sig": "wrong-value:cli:%s:lambda-%s" % (e["k"], "statement" if id(e) in discarded_ids(pr) else "expr"), "detail": d}
+        keys.add("cli|%s|lambda" % e["k"])
+    disc = discarded_ids(pr)
     for (e, st, en, off), ans in zip(probes, answers[1:]):
         s = session.summarize(ans)
         want = interp.show(ref["trace"][id(e)])
@@ -191,6 +260,7 @@ def run_case(case, sc):
             if not (got_span[0] is not None and got_span[0] <= st and got_span[1] >= en and src[got_span[0]:got_span[1]].strip("() \n") == src[st:en].strip("() \n")):
                 return {"status": "violated", "key": None, "sig": "not-the-innermost-expression:%s:%s" % (e["k"], ctx), "detail": d}
         if s[1] != want:
-            return {"status": "violated", "key": None, "sig": "wrong-value:%s:%s" % (e["k"], ctx), "detail": d}
+            where = "session-lambda-statement" if (id(e) in disc and id(e) in in_mf) else ctx
+            return {"status": "violated", "key": None, "sig": "wrong-value:%s:%s" % (e["k"] if where == ctx else "any", where), "detail": d}
         keys.add("%s|%s|%s" % (e["k"], ctx, shape(e["ty"])))
     return {"status": "held", "key": None, "keys": sorted(keys)}
